@@ -81,7 +81,10 @@ func (e *Exec) mutexCall(s *State, ins ssa.Instruction, op string, mu Value) {
 			}
 		}
 		// havoc guarded state, assume invariant
+		before := s.clone()
+		e.bumpAlloc(s) // other threads may have allocated objects now reachable through guarded state
 		e.havocGuarded(s, mon, objT, obj)
+		e.assumeRely(s, before, mon, objT, obj)
 		s.held = append(s.held, heldMutex{Obj: obj, Key: key, Mon: mon, Read: op == "rlock"})
 		for _, inv := range mon.Invariants {
 			s.assume(e.asHyp(func() *Node { return e.evalMonitorInv(mon, inv, objT, obj, s) }))
@@ -142,8 +145,22 @@ func (e *Exec) mutexCall(s *State, ins ssa.Instruction, op string, mu Value) {
 					}
 				}
 			}
+			before := s.clone()
 			e.havocGuarded(s, mon, objT, obj)
+			e.assumeRely(s, before, mon, objT, obj)
 		}
+	}
+}
+
+// assumeRely: every critical section of every thread satisfies the monitor's two-state transitions
+// (asserted at each Unlock of each function under contract; all locking functions must be under
+// contract). Transitions are required to be reflexive and transitive, so they also relate the state
+// this thread last saw to the state it sees after other threads ran.
+func (e *Exec) assumeRely(s, before *State, mon *Monitor, objT types.Type, obj *Node) {
+	for _, tr := range mon.Transitions {
+		vars := map[string]specVar{"s": {obj, types.NewPointer(objT)}, "self": {obj, types.NewPointer(objT)}}
+		cc := calleeCtx{e.v.pkgByPath(mon.PkgPath)}
+		s.assume(e.asHyp(func() *Node { return cc.evalWith(e, tr, s, before, vars) }))
 	}
 }
 
@@ -202,6 +219,36 @@ func (e *Exec) evalMonitorInv(mon *Monitor, inv *Clause, objT types.Type, obj *N
 func (e *Exec) havocGuarded(s *State, mon *Monitor, objT types.Type, obj *Node) {
 	e.noGuard++
 	defer func() { e.noGuard-- }()
+	if len(s.privObjs) > 0 {
+		// ghost state of objects this activation allocated and has not shared yet cannot be changed
+		// by other threads: ghost assignments only happen in functions under contract, on objects
+		// they can reach
+		type keepG struct {
+			name string
+			key  *Node
+			val  *Node
+		}
+		var keep []keepG
+		for _, po := range s.privObjs {
+			n := po.t.Underlying().(*types.Pointer).Elem().(*types.Named)
+			for _, gf := range e.v.db.Ghost {
+				if gf.Owner != n.Obj().Name() {
+					continue
+				}
+				name := ghostHeapName(gf)
+				h := e.heap(s, name, e.ghostHeapSort(gf, "Iface"))
+				key := e.box(s, po.ref, po.t)
+				keep = append(keep, keepG{name, key, Select(h, key)})
+			}
+		}
+		defer func() {
+			for _, k := range keep {
+				if h, ok := s.heaps[k.name]; ok {
+					s.heaps[k.name] = Store(h, k.key, k.val)
+				}
+			}
+		}()
+	}
 	st := objT.Underlying().(*types.Struct)
 	for _, g := range mon.Guards {
 		idx, _ := findField(st, g)
@@ -373,6 +420,12 @@ func (e *Exec) mapLen(s *State, mt *types.Map, m *Node) *Node {
 	s.assume(e.ile(e.idx(0), l))
 	// physical bound: a map never holds 2^48 entries (recorded as a machine assumption)
 	s.assume(e.ile(l, e.idx(1<<48)))
+	if !m.bound {
+		// a map with a key in its domain is not empty
+		_, ks := e.mapHeaps(s, mt)
+		k := BoundVar("k!ml", ks)
+		s.assume(Forall([]*Node{k}, Implies(Select(e.mapDom(s, mt, m), k), e.ile(e.idx(1), l))))
+	}
 	return Ite(Eq(m, IntLit(0)), e.idx(0), l)
 }
 
